@@ -289,7 +289,13 @@ class SqlImpl(TableImpl):
 
             arrange = expr.context_kwargs.get("arrange")
             if arrange:
-                order_by = dedup_order_by(cls.compile_order(order, sqa_expr) for order in arrange)
+                # Constant sort keys do not order anything, and a bare integer in
+                # ORDER BY would be read as a column position.
+                order_by = dedup_order_by(
+                    cls.compile_order(order, sqa_expr)
+                    for order in arrange
+                    if not types.is_const(order.order_by.dtype())
+                )
             else:
                 order_by = None
 
@@ -368,8 +374,10 @@ class SqlImpl(TableImpl):
             if query.offset:
                 sel = sel.offset(query.offset)
 
-        if query.order_by:
-            sel = sel.order_by(*dedup_order_by(cls.compile_order(ord, sqa_expr) for ord in query.order_by))
+        # Constant sort keys do not order anything, and a bare integer in ORDER BY would
+        # be read as a column position.
+        if order_by := [ord for ord in query.order_by if not types.is_const(ord.order_by.dtype())]:
+            sel = sel.order_by(*dedup_order_by(cls.compile_order(ord, sqa_expr) for ord in order_by))
 
         sel = sel.with_only_columns(*(sqa_expr[uid] for uid in query.select))
 
